@@ -47,9 +47,13 @@ class Check:
         self.prop = module.PROPERTY
         self.tier = tier
         self.seed = seed
-        self.t0 = time.time()
         self.budget = budget_s if budget_s is not None else module.BUDGET[tier]
         self.worker = build.build()
+        self.t0 = time.time()  # the budget is exploration time: building the worker is not part of it
+        # On a loaded machine a wall-clock budget buys fewer cases. The quick tier therefore goes on until a minimum
+        # number of cases has been evaluated, up to three times its budget (only when the budget is the registered one).
+        self.min_cases = getattr(module, "MIN_CASES", {}).get(tier, 0) if budget_s is None else 0
+        self.budget_cap = self.budget * 3
         self.pool = Pool(self.worker, jobs=jobs, tag=self.prop)
         self.lock = threading.Lock()
         self.cases = 0
@@ -337,6 +341,8 @@ class Check:
             it = iter(gen)
             exhausted = False
             while True:
+                if self.time_left() <= reserve_s and n < self.min_cases and self.budget + 10 <= self.budget_cap and len(self.violations) < 6:
+                    self.budget += 10
                 while not exhausted and len(pending) < jobs * 2 and self.time_left() > reserve_s and (max_cases is None or n < max_cases):
                     try:
                         case = next(it)
